@@ -253,3 +253,8 @@ def subterms(t):
     for x in rest:
         if isinstance(x, (tuple, frozenset)):
             yield from subterms(x)
+
+
+def run_thorough(ctx):
+    # A8: clauses enforced by the type system itself, witnessed by compile_fail doctests with compiling twins
+    ctx.witness("R12.3", ['AdapterIsOpaque', 'PrivateDetached'])
